@@ -87,8 +87,8 @@ type vfC20Proc struct {
 
 // vfC20Free returns how many units can be taken from the semaphore right now (only meaningful while no
 // call is in flight) and puts them back.
-func vfC20Free(s *sema) int {
-	n := 0
+func vfC20Free(s *sema) (n int) {
+	defer func() { recover() }() // a semaphore that was over-released earlier panics again here
 	for n < 1000 && s.sem.TryAcquire(1) {
 		n++
 	}
@@ -127,6 +127,7 @@ func vfC20Trial(t *testing.T, r *vfRand, trial int) bool {
 	lg := &vfC20Log{}
 	var fails []vfC20Fail
 	var failMu sync.Mutex
+	var aborted atomic.Bool // a scheduler call panicked: the semaphores are in an undefined state
 	fail := func(key, what string) {
 		failMu.Lock()
 		fails = append(fails, vfC20Fail{key, what})
@@ -167,6 +168,7 @@ func vfC20Trial(t *testing.T, r *vfRand, trial int) bool {
 		defer func() {
 			if e := recover(); e != nil {
 				fail("panic", fmt.Sprint("panic in scheduler call: ", e))
+				aborted.Store(true)
 				p.over = true
 			}
 		}()
@@ -238,7 +240,7 @@ func vfC20Trial(t *testing.T, r *vfRand, trial int) bool {
 	}
 
 	hung := false
-	for stage := 0; stage < nStages && !hung; stage++ {
+	for stage := 0; stage < nStages && !hung && !aborted.Load(); stage++ {
 		var wg sync.WaitGroup
 		for _, p := range procs {
 			if p.over || p.startStage > stage {
@@ -275,7 +277,7 @@ func vfC20Trial(t *testing.T, r *vfRand, trial int) bool {
 				fail("hang", "scheduler calls did not return within 20s after their contexts were cancelled")
 			}
 		}
-		if !hung {
+		if !hung && !aborted.Load() {
 			// quiescent: no call in flight. Probe the real occupancy.
 			oI := capIObs - vfC20Free(sched.semInteractive)
 			oB := capBObs - vfC20Free(sched.semBatch)
@@ -377,7 +379,7 @@ func vfC20Trial(t *testing.T, r *vfRand, trial int) bool {
 			maxB = hB
 		}
 	}
-	if !hung && (hI != 0 || hB != 0) {
+	if !hung && !aborted.Load() && (hI != 0 || hB != 0) {
 		fail("harness", "harness bug: not every process released")
 	}
 	if maxI == capacity {
